@@ -130,6 +130,8 @@ pub fn times() -> Vec<Vec<TimeSpan>> {
         // a literal full-day span next to a span reaching 48:00 (`is_immutable_full_day` is a
         // conjunction over the spans of the selector)
         vec![span(tfix(0, 0), tfix(24, 0)), span(tfix(4, 0), tfix(48, 0))],
+        // an open end with an explicit end just after midnight (`18:00-24:30+`)
+        vec![span_open_end(tfix(18, 0), tfix(24, 30))],
     ]
 }
 
